@@ -1,3 +1,4 @@
+import SqlModel.KwNorm
 import SqlModel.Grouping.Matching
 import SqlModel.Grouping.DriverPasses
 import SqlModel.Grouping.AdHoc
@@ -90,7 +91,7 @@ def groupWith (upper : Text → Text) (fuel : Nat) (ks : List Node) : Except PyE
   runPasses upper fuel .Statement Gen.passOrder ks
 
 /-- `grouping.group(stmt)` on the children of the statement -/
-def group (fuel : Nat) (ks : List Node) : Except PyErr (List Node) := groupWith pyUpper fuel ks
+def group (fuel : Nat) (ks : List Node) : Except PyErr (List Node) := groupWith kwNorm fuel ks
 
 /-- `grouping.group(sql.Statement(tokens))` for a flat statement of the splitter -/
 def groupStatement (fuel : Nat) (st : List Tok) : Except PyErr Node :=
